@@ -306,8 +306,10 @@ var c19Ops = []c19Op{
 		q := spatial.QuatFromAxisAngle(spatial.Vector3{Z: 1}, 0.5)
 		m := spatial.NewMatrix3(1, 2, 3, 4, 5, 6, 7, 8, 10)
 		mi, _ := common.Min([]int64{w.h, w.v, 3})
+		un := common.Union(w.ext, w.ext[:1]) // set-valued: order not specified
+		sort.Strings(un)
 		return fmt.Sprint(x0, x1, y0, y1, *mx, *mn, len(up), l.ToPoint(0.25), q, m, spatial.NewUnitMatrix3(), spatial.NewVectorFromPoints(*pts[0], *pts[1]),
-			common.AlmostEqual(1, 1+1e-12, 1e-10), shape.CheckZoom(w.h), shape.CheckZoom(36), common.DegreeToRadian(180), common.RadianToDegree(1), common.Union(w.ext, w.ext[:1]),
+			common.AlmostEqual(1, 1+1e-12, 1e-10), shape.CheckZoom(w.h), shape.CheckZoom(36), common.DegreeToRadian(180), common.RadianToDegree(1), un,
 			common.Include(w.ext, w.ext[0]), mi)
 	}},
 	{"common helpers", func(w *c19World) string {
